@@ -144,6 +144,25 @@ CLAIMS = {
          "definition and first use.",
     technique="dominance / must-pass-through at entries, argument-flow checks on the late re-parse, statement order on the CFG",
     ref="DESIGN.md 3/C17"),
+ "C13": dict(
+    text="Static tables-and-views check of the JSON-Schema generator (not validity of whole documents): constraint, "
+         "primitive, operator and format tables folded from source carry the JSON-Schema keyword of the same meaning per "
+         "primitive, non-standard names never reuse a standard keyword, subclass-sensitive first-match order (bool before "
+         "int, datetime before date) (R13a); input/output view members are used only under the matching self.output "
+         "polarity (R13b); properties / required / dependentRequired share one key, required is decided by the parser's "
+         "own is_required with the view's options and only for listed properties (R13c); additionalProperties is emitted "
+         "exactly when a policy is set - schema for a type, literal for a boolean (R13d); always_no_input / "
+         "always_no_output agree with is_no_input / is_no_output on every value-independent declaration x mode point of "
+         "an enumerated finite domain (R13e); container keywords items / prefixItems / patternProperties (R13f); the JSON "
+         "kind returned by every registered encoder matches the primitive announced for its type (R13g); the name "
+         "returned by set_def is the one referenced (R13h).",
+    note="Undecided: draft 2020-12 validity of the whole document and validation of arbitrary parser outputs against it "
+         "(needs an independent validator over generated values). Known findings F29a/F29b (large / non-finite Decimal "
+         "published as string under type number).",
+    technique="constant folding of keyword tables against a vocabulary table, guard-fact polarity checks per view, "
+              "exhaustive finite-domain evaluation of the field predicates by the checker's own AST evaluator, "
+              "return-kind provenance of encoders, unused-result lint",
+    ref="DESIGN.md 3/C13"),
  "C15": dict(
     text="Static tables-and-shapes check of the JSON-Schema translator (not the value-level strictness): every validation "
          "keyword of the supported fragment is translated and CONSTRAINTS_MAP maps it to a constraint that implies its "
